@@ -222,6 +222,9 @@ where
 {
     #[inline]
     fn clone(&self) -> Self {
+        #[cfg(folo_verif)]
+        crate::verif::point("pts.clone");
+
         Self {
             inner: Arc::clone(&self.inner),
             family: self.family.clone(),
@@ -236,6 +239,9 @@ where
     fn drop(&mut self) {
         // If we were the last RefSync on this thread then we need to drop the thread-local
         // state for this thread. Note that there are 2 references - ourselves and the family state.
+        #[cfg(folo_verif)]
+        crate::verif::point("pts.drop.count");
+
         if Arc::strong_count(&self.inner) != 2 {
             // No - there is another RefSync, so we do not need to clean up.
             return;
@@ -284,6 +290,11 @@ where
 
         // First, an optimistic pass - let us assume it is already initialized for our thread.
         {
+            #[cfg(folo_verif)]
+            crate::verif::block_until("pts.lookup", &|| {
+                crate::verif::lock_is_free(self.thread_specific.try_read())
+            });
+
             let map = self.thread_specific.read().expect(ERR_POISONED_LOCK);
 
             if let Some(state) = map.get(&thread_id) {
@@ -295,7 +306,15 @@ where
         // Note that we create this instance outside any locks, both to reduce the
         // lock durations but also because cloning a linked object may execute arbitrary code,
         // including potentially code that tries to grab the same lock.
+        #[cfg(folo_verif)]
+        crate::verif::point("pts.create");
+
         let instance: Arc<T> = Arc::new(self.family.clone().into());
+
+        #[cfg(folo_verif)]
+        crate::verif::block_until("pts.insert", &|| {
+            crate::verif::lock_is_free(self.thread_specific.try_write())
+        });
 
         // Let us add the new instance to the map.
         let mut map = self.thread_specific.write().expect(ERR_POISONED_LOCK);
@@ -324,6 +343,11 @@ where
     fn clear_current_thread_instance(&self) {
         // We need to clear the thread-specific state for this thread.
         let thread_id = thread::current().id();
+
+        #[cfg(folo_verif)]
+        crate::verif::block_until("pts.drop.clear", &|| {
+            crate::verif::lock_is_free(self.thread_specific.try_write())
+        });
 
         let mut map = self.thread_specific.write().expect(ERR_POISONED_LOCK);
         map.remove(&thread_id);
